@@ -178,4 +178,15 @@ def Member.check (m : Member) : Bool :=
     [DOp.setOk, .setBad, .get].all (fun o => cleanStates.contains (m.run s o)) &&
     (runEvs m.dealloc s).settled
 
+/-! ## Emission of the result's pre_call code on the default-argument paths
+
+`wrap_function` keeps the pending `result_pre_call` lines in a list and emits them at several sites
+(before the `switch (SH_nargs)` when there are default arguments, and in the loop over the calls).
+One executed path passes all sites in order. -/
+
+/-- the code one path executes at the sites (`reset` flags), starting with the list pending -/
+def emitPath (pre : List Ev) : List Bool → Bool → List Ev
+  | [], _ => []
+  | r :: rs, pending => (if pending then pre else []) ++ emitPath pre rs (pending && !r)
+
 end Shroud.PyRes
